@@ -323,14 +323,21 @@ def introspect(schema: Any) -> Optional[dict]:
         c = getattr(t, 'content', None)
         if isinstance(t, XsdComplexType) and isinstance(c, XsdSimpleType):
             visit(c)
+        if isinstance(t, XsdUnion):
+            for m in t.member_types:
+                visit(m)
+        if getattr(t, 'item_type', None) is not None and not isinstance(t, XsdComplexType):
+            visit(t.item_type)
+        pt = getattr(t, 'primitive_type', None)
+        if isinstance(pt, XsdUnion) and pt is not t:
+            visit(pt)
         objs.append(t)
     for t in schema.types.values():
         visit(t)
     idx = {id(o): i for i, o in enumerate(objs)}
     types = []
+    from xmlschema.validators import XsdList, XsdAtomic, XsdAtomicRestriction
     for o in objs:
-        if isinstance(o, XsdUnion):
-            return None
         cx = isinstance(o, XsdComplexType)
         c = getattr(o, 'content', None)
         types.append({
@@ -340,7 +347,15 @@ def introspect(schema: Any) -> Optional[dict]:
             'simpleContent': bool(cx and o.has_simple_content()),
             'content': idx[id(c)] if cx and isinstance(c, XsdSimpleType) else None,
             'abstract': bool(getattr(o, 'abstract', False)),
-            'block': [m for m in (getattr(o, 'block', '') or '').split() if m in METHS]})
+            'block': [m for m in (getattr(o, 'block', '') or '').split() if m in METHS],
+            'anyAtomic': o.name == '{%s}anyAtomicType' % XSD, 'atomicCls': isinstance(o, XsdAtomic),
+            'isList': isinstance(o, XsdList),
+            'item': idx[id(o.item_type)] if isinstance(o, XsdList) else None,
+            'isUnion': isinstance(o, XsdUnion),
+            'members': [idx[id(m)] for m in o.member_types] if isinstance(o, XsdUnion) else [],
+            'unionLike': bool(not cx and o.is_union()), 'facets': bool(not cx and o.facets),
+            'primUnion': idx[id(o.primitive_type)] if isinstance(o, XsdAtomicRestriction)
+            and isinstance(o.primitive_type, XsdUnion) else None})
     names = {o.local_name: idx[id(o)] for o in objs if o.name and o.name.startswith('{%s}' % T)}
     elems, eidx = [], {}
     order = [e for e in schema.elements.values() if not e.local_name.startswith('r_')]
@@ -354,7 +369,7 @@ def introspect(schema: Any) -> Optional[dict]:
                       'blockSubst': 'substitution' in blk, 'abstract': bool(e.abstract), 'nillable': bool(e.nillable),
                       'fixed': e.fixed is not None,
                       'subst': eidx[e.substitution_group] if e.substitution_group else None})
-    return {'types': types, 'elems': elems, 'names': names, 'objs': objs, 'eorder': order,
+    return {'types': types, 'elems': elems, 'names': names, 'objs': objs, 'eorder': order, 'idx': idx,
             'eidx': {e.local_name: i for i, e in enumerate(order)}}
 
 
@@ -552,7 +567,7 @@ def run_schema(ctx: Ctx, drv: Optional[Driver], s: dict, v11: bool) -> None:
                     if fixed_ok(byname, o.local_name, cv, fixed):
                         fok.append([ti, vid * 2 + fx])
         ans = drv.query([{'types': g['types'], 'elems': g['elems'], 'contentOk': cok, 'fixedOk': fok,
-                          'queries': queries}])[0]
+                          'quirks': active_quirks(), 'queries': queries}])[0]
         if 'err' in ans:
             ctx.mismatch('driver error', case0, None, ans)
             return
@@ -647,6 +662,15 @@ def run_alternatives(ctx: Ctx, drv: Optional[Driver]) -> None:
 
 
 # ---------------------------------------------------------------- entry points
+QUIRK_IDS = ['C07-F1', 'C07-F2', 'C07-F3', 'C07-F4', 'C07-F5']
+
+
+def active_quirks() -> list[str]:
+    """behaviours of the pinned code the Lean model has to reproduce: the findings still `known`"""
+    st = {e['id']: e.get('status') for e in load_findings()}
+    return [q for q in QUIRK_IDS if st.get(q) == 'known']
+
+
 def load_findings() -> list[dict]:
     try:
         return json.loads((VERIF / 'notes' / 'findings' / 'C07.json').read_text())['findings']
